@@ -4,3 +4,12 @@ set -e
 cd "$(dirname "$0")"
 export CARGO_NET_OFFLINE=true
 CARGO_TARGET_DIR=/verif/target cargo build --release --offline --manifest-path tools/vx/Cargo.toml
+# witness-search driver (replay/): pre-build against /repo so that a violation does not pay the cold build
+python3 -c "
+import sys; sys.path.insert(0, '.')
+from vf import mirrors
+try:
+    print('replay driver:', mirrors.build())
+except Exception as e:
+    print('replay driver not built (checks still decide; violations then end no-failing-input-found):', str(e)[-300:])
+"
